@@ -56,6 +56,7 @@ type plan struct {
 	// the state machine, truncates its log and brings lagging or restarted
 	// nodes up to date by installing the snapshot
 	RaftSnap int
+	Shrink   int // cluster mode: meta nodes removed through /remove after the faults (0-2)
 }
 
 func genSetup(t *rapid.T) []metacmd.Cmd {
